@@ -71,7 +71,7 @@ def run_case(desc):
     is_bm = desc["family"] == "bm"
     d = 2
     if is_bm:
-        obj = streams.make_bm(name, b, w, desc["seed"] % 1000)
+        obj = streams.make_bm(name, b, w, desc["seed"] % 1000, **streams.variant_kwargs(name, desc["seed"]))
         U = streams.utility_stream(rng, desc["stream"], n, b)
         X = np.zeros((n, d))
         kind = "dbs" if name == "DensityBasedSplitBudgetManager" else "zl"
@@ -84,7 +84,7 @@ def run_case(desc):
             extra["force_full_budget"] = True      # update() of the cognitive strategies with force_full_budget=False: see C10
             extra["cognition_window_size"] = 5
         if name in ZL_STRATS:
-            bm = streams.make_bm(ZL_STRATS[name], b, w, desc["seed"] % 1000)
+            bm = streams.make_bm(ZL_STRATS[name], b, w, desc["seed"] % 1000, **streams.variant_kwargs(ZL_STRATS[name], desc["seed"]))
             try:
                 obj = streams.make_strategy(name, None, desc["seed"] % 1000, bm=bm, **extra)
                 if "budget_manager" not in obj.get_params():
